@@ -27,9 +27,15 @@ def op_configs(tier):
     # plate sizes: a sample of n experiments under every size limit 1..5 (one draw of the generator: the identity permutation)
     for n in ((7, 11, 14) if q else range(1, 20)):
         add("segregating, one sample with %d experiments" % n, op="segr", fam="L%d" % n, R=n + 2, pmax=5, fixed_rng=True)
+    # a not yet observed outcome that is NaN is an experiment like any other
+    add("permutation A, an unobserved outcome is NaN", op="perm", fam="A", R=5, force=None, nan_row=1)
+    add("segregating B, an unobserved outcome is NaN", op="segr", fam="B", R=4, pmax=3, nan_row=0)
+    add("fixed-size A, an unobserved outcome is NaN", op="fixed", fam="A", R=5, pmax=3, nan_row=2)
     add("pairwise D", op="pair", fam="D", R=4 if q else 6)
     add("pairwise H (single-agent rows for the last sample only)", op="pair", fam="H", R=6 if q else 7)
     add("pairwise P (five samples, all pairs of four drugs: more samples than treatment groups)", op="pair", fam="P", R=30, fixed_rng=True)
+    for op in ("fixed", "optimal", "nper", "ensemble", "mergemin", "topbottom"):
+        add("%s S1 (a single unobserved plate)" % op, op=op, fam="S1", R=4, pmax=3)
     add("merge-min C", op="mergemin", fam="C", R=6 if q else 7, pmax=6)
     add("merge-min A", op="mergemin", fam="A", R=5, pmax=4)
     add("top-bottom C", op="topbottom", fam="C", R=6 if q else 7)
@@ -135,6 +141,15 @@ def _plates_of(t, only_unobserved=True):
 
 
 def run_op(ctx, cfg, want11, want13):
+    from . import retro_common
+    retro_common.NAN_ROW[0] = cfg.get("nan_row")
+    try:
+        return _run_op(ctx, cfg, want11, want13)
+    finally:
+        retro_common.NAN_ROW[0] = None
+
+
+def _run_op(ctx, cfg, want11, want13):
     np = ctx.np
     retro = ctx.mod("batchie.retrospective")
     data = ctx.mod("batchie.data")
